@@ -9,19 +9,27 @@ theorem Analog_eq_sound (a b : Analog.State) (h : Analog.eq a b = true) : Analog
   simp only [Analog.eq, Bool.and_eq_true, beq_iff_eq] at h
   cases a; cases b; simp_all
 
+example : Analog.eq ⟨0xDEADBEEF, [1, 2, 3]⟩ ⟨0xDEADBEEF, [1, 2, 3]⟩ = true := by decide
+
 theorem Analog_eq_decode (a t : Analog.State) (h : C04.Analog_WF a) :
     ∃ b, Analog.pack a = .ok b ∧ (Analog.unpack t b).2 = .ok () ∧ Analog.eq a (Analog.unpack t b).1 = true := by
   obtain ⟨b, hp, hu, _⟩ := C04.Analog_roundtrip a t h
   exact ⟨b, hp, by rw [hu], by rw [hu]; simp [Analog.eq]⟩
+
+example : C04.Analog_WF { channel_specific_word := 0xDEADBEEF, data := [1, 2, 3] } := by simp [C04.Analog_WF]
 
 /-- the time formats compare the channel-specific word and the `PTPTime` (seconds, nanoseconds) -/
 theorem TDF1_eq_sound (a b : TimeFmt.State1) (h : TimeFmt.State1.eq a b = true) : a.pack = b.pack := by
   simp only [TimeFmt.State1.eq, Bool.and_eq_true, beq_iff_eq] at h
   cases a; cases b; simp_all
 
+example : TimeFmt.State1.eq ⟨0x251, 1709208000, 123456789⟩ ⟨0x251, 1709208000, 123456789⟩ = true := by decide
+
 theorem TDF2_eq_sound (fl : Rat → Rat) (a b : TimeFmt.State2) (h : TimeFmt.State2.eq a b = true) :
     TimeFmt.State2.packWith fl a = TimeFmt.State2.packWith fl b := by
   simp only [TimeFmt.State2.eq, Bool.and_eq_true, beq_iff_eq] at h
   cases a; cases b; simp_all
+
+example : TimeFmt.State2.eq ⟨0x21, 1709208000, 999999999⟩ ⟨0x21, 1709208000, 999999999⟩ = true := by decide
 
 end Acra.Props.C14
